@@ -603,6 +603,38 @@ def check_split(ctx: Ctx, fi, ifnode):
     ctx.hold("PARMAP", site + ":tail", fi, "no reordering between the branches and the return")
 
 
+def check_pickle_writable(ctx: Ctx, rule="PICKLE"):
+    """Candidates cross the process boundary by pickling.  The droplet classes keep their state in one numpy record; a record
+    pickled on its own comes back as a scalar that silently discards item assignments (contract of numpy.record), so every
+    setter of the restored droplet would be a no-op in the worker while it works in the serial branch.  The root class must
+    therefore restore the record as a view into an array (its own __getstate__/__setstate__ or __reduce__), or no worker-side
+    function may write through a droplet it received."""
+    m = ctx.model
+    base = m.cls("DropletBase")
+    restore = [base.methods.get(n_) for n_ in ("__setstate__", "__reduce__", "__reduce_ex__", "__getnewargs_ex__")]
+    restore = [r_[0] for r_ in restore if r_]
+    array_backed = False
+    for fi in restore:
+        txt = U(fi.node)
+        if any(k in txt for k in ("recarray", "np.array(", "from_data", "np.rec.", "view(")):
+            array_backed = True
+    # writes through the per-item parameter in the functions that run in workers
+    writes = []
+    for q in ("droplets.image_analysis.refine_droplet",):
+        if not m.has_func(q):
+            continue
+        fi = m.func(q)
+        item = fi.params[1] if len(fi.params) > 1 else None
+        for s_ in ast.walk(fi.node):
+            if isinstance(s_, ast.Assign) and isinstance(s_.targets[0], ast.Attribute) and isinstance(s_.targets[0].value, ast.Name) and s_.targets[0].value.id == item and s_.targets[0].attr != "data":
+                writes.append((fi, s_))
+    ok = array_backed or not writes
+    ctx.decide(ok, rule, base.qualname + ":restore", restore[0] if restore else ((writes[0][0], writes[0][1]) if writes else base.node),
+               "a droplet restored from a pickle keeps its record as a view into an array: setters work in worker processes as they do serially",
+               f"`{U(writes[0][1])[:60] if writes else ''}` assigns through a setter of a droplet that a worker process received by pickling, but DropletBase does not restore its numpy record as an "
+               "array view: the assignment is silently lost in the worker (the default interface width stays None → TypeError) while the serial branch applies it")
+
+
 def check_forwarding(ctx: Ctx):
     """Every caller of a function with ``num_processes`` passes its own value on."""
     model = ctx.model
@@ -784,6 +816,7 @@ def check(ctx: Ctx):
     for fi, ifn in splits:
         check_split(ctx, fi, ifn)
     check_forwarding(ctx)
+    check_pickle_writable(ctx)
     from ..rules import iteronce
 
     for q in ENTRY:
@@ -793,6 +826,7 @@ def check(ctx: Ctx):
     check_fixture(ctx)
     ctx.expect("PARMAP", 14)
     ctx.expect("SHARED", 2)
+    ctx.expect("PICKLE", 1)
     ctx.expect("FORWARD", 2)
     ctx.expect("ITER-ONCE", 1)
     ctx.expect("PURE", 40)
